@@ -125,3 +125,18 @@ META.update({
         note=_GW_NOTE + " Data-race reports are not C25 violations (no -race build here).",
         technique="stateful fuzzing (rapid) with process-death detection and ddmin minimisation"),
 })
+CHECKS["C27"] = dict(parts=[part("dispatch-matching", "cl", "TestC27", 5000, 300_000)])
+CHECKS["C17"] = dict(parts=[part("client-qos-under-loss", "cl", "TestC17", 3000, 200_000)])
+CHECKS["C28"] = dict(parts=[part("calls-return", "cl", "TestC28", 3000, 200_000)])
+_CL_NOTE = "Real client library (unmodified, its dial replaced through the verif-tagged hook) on an in-memory datagram link inside a testing/synctest bubble; the scripted gateway speaks through the reference codec snref, which is trusted. Blocking API calls run on their own goroutines. Built with go1.26.8."
+META.update({
+    "C17": dict(
+        text="Exploration: generated per-transmission fate plans (lost / processed but acknowledgement lost / acknowledged / acknowledged twice) for every protocol step of Register, Subscribe, Unsubscribe and Publish at QoS 0-3 over all topic forms, RetryCount 0-4, plus QoS 2 deliveries whose PUBREL is repeated after completion; the oracle derives from the plan whether each call must return nil or an error, and checks DUP and message IDs of every retransmission and a PUBCOMP for every PUBREL.",
+        note=_CL_NOTE, technique="fault-plan PBT (loss/duplication per transmission) with a plan-derived oracle; virtual time"),
+    "C27": dict(
+        text="Exploration: generated subscribe/unsubscribe histories over filters with empty levels, '+', trailing and parent-level '#', and deliveries at QoS 0/1/2 via registered, short and predefined IDs against the real client; every (filter, topic) pair of up to 2 levels is enumerated with a single subscription; oracle: a reference MQTT 3.1.1 topic matcher decides which callbacks may run (exactly one matching, none otherwise, none after Unsubscribe, QoS 2 at PUBREL).",
+        note=_CL_NOTE, technique="model-based PBT against a reference matcher; exhaustive for <= 2 levels"),
+    "C28": dict(
+        text="Exploration: every API call (alone or two at the same instant) against an adversarial scripted gateway whose behaviour per datagram is drawn (silence at any step, wrong IDs/types, unsolicited packets, DISCONNECT, undecodable datagrams, duplicates), with and without keep-alive, with time advances around keep-alive ticks; oracle: each call returns within its bound on the virtual clock, and after Close or an unsolicited gateway DISCONNECT a goroutine census finds no client goroutine; goroutines still blocked at the end of a case are reported by the bubble itself.",
+        note=_CL_NOTE + " Hangs are decided up to 10x the bound.", technique="stateful PBT with an adversarial peer; bounded-liveness oracle on a virtual clock; goroutine census"),
+})
